@@ -1,0 +1,19 @@
+//go:build verif
+// +build verif
+
+package log
+
+// verif is true when the package is built with the "verif" tag. The call
+// sites guarded by it are dead code otherwise (see noverif.go).
+const verif = true
+
+// verifHook, when set, is invoked synchronously at named points inside
+// storage mutating sequences. dir is the storage directory (or a path
+// below it) of the node that reached the point.
+var verifHook func(point string, dir string)
+
+func verifPoint(point string, dir string) {
+	if h := verifHook; h != nil {
+		h(point, dir)
+	}
+}
